@@ -1,14 +1,29 @@
 #!/bin/bash
-# MANIFEST.setup_cmd: build the Lean library and the model driver from files on disk only.
-set -e
+# MANIFEST.setup_cmd: regenerate the translator tables from /repo, then build the Lean library and
+# the model drivers from files on disk only.  A property whose modules fail to build here is
+# reported by that property's own check (which rebuilds them); setup itself only fails when the
+# toolchain does not work at all.
 HERE="$(cd "$(dirname "${BASH_SOURCE[0]}")" && pwd)"
-cd "$HERE"
-export PYTHONPATH="/repo:$HERE"
-/venv/bin/python - <<'PY'
-from harness import core
-core.regen_root()
-PY
-cd lean
-DRV=$(ls OV/Drivers/C*.lean 2>/dev/null | sed -E 's#.*/C([0-9]+)\.lean#drv_c\1#')
-lake build OV $DRV 2>&1 | tail -5
-for d in $DRV; do test -x .lake/build/bin/$d; done
+cd "$HERE" || exit 2
+export VERIF_REPO="${VERIF_REPO:-/repo}"
+export PYTHONPATH="$VERIF_REPO:$HERE"
+export PYTHONWARNINGS=ignore
+/venv/bin/python -c "from harness import core; core.regen_root()" || exit 2
+/venv/bin/python -m harness.pregen 2>&1 | grep -v "conda.cli.condarc" | tail -40
+cd lean || exit 2
+fail=0
+for f in OV/Props/C*.lean; do
+  m="OV.Props.$(basename "$f" .lean)"
+  d="drv_$(basename "$f" .lean | tr 'A-Z' 'a-z')"
+  targets="$m"
+  [ -f "OV/Drivers/$(basename "$f")" ] && targets="$targets $d"
+  if ! lake build $targets > /tmp/ov_setup_build.log 2>&1; then
+    echo "[setup] WARNING: $targets did not build (its check will report):"; grep -E "error" /tmp/ov_setup_build.log | head -5
+    fail=$((fail+1))
+  else
+    echo "[setup] built $targets"
+  fi
+done
+lake build OV.Props.C11 drv_c11 > /dev/null 2>&1 || { echo "[setup] toolchain broken: cannot build the pilot"; exit 1; }
+echo "[setup] done ($fail property build(s) with warnings)"
+exit 0
